@@ -13,7 +13,9 @@ def b(x):
 
 def term(c):
     w = "[" + "; ".join("{| w_id := %d; w_gen := %s; w_enc := %s |}" % (i, b(c["gen"][i]), b(c["enc"][i])) for i in c["worder"]) + "]"
-    d = "[" + "; ".join("(%d, %s)" % (i, b(c["dec"][i])) for i in (c.get("dorder") or [])) + "]"
+    # a region whose KMS Decrypt answers with a data key that does not open the envelope is, for the model, a region that cannot decrypt
+    wrong = c.get("wrong") or []
+    d = "[" + "; ".join("(%d, %s)" % (i, b(c["dec"][i] and not (i < len(wrong) and wrong[i]))) for i in (c.get("dorder") or [])) + "]"
     nl = lambda l: "[" + "; ".join(str(x) for x in (l or [])) + "]"
     return ("{| k_wclients := %s; k_dclients := %s; o_wrap_ok := %s; o_gen := %d; o_entries := %s; o_unwrap_ok := %s; o_attempts := %s |}"
             % (w, d, b(c["wrapok"]), max(0, c.get("genregion", 0)), nl(c.get("entries")), b(c["unwrapok"]), nl(c.get("attempts"))))
